@@ -1441,7 +1441,7 @@ static void MPSreadBounds(MPSInput& mps, LPColSetBase<Rational>& cset, const Nam
                }
 
             // ILOG extension (Integer Bound)
-            if(mps.field1()[1] == 'I')
+            if(mps.field1()[1] == 'I' && mps.field1()[0] != 'M')
             {
                if(intvars != nullptr)
                   intvars->addIdx(idx);
